@@ -246,7 +246,7 @@ func runExitRaces(c *lib.Ctx, rng *lib.RNG, fails *[]lib.OracleFail) {
 				base = got
 			}
 		}
-		if time.Since(start) > time.Duration(c.Scale(40, 600))*time.Second {
+		if time.Since(start) > time.Duration(c.Scale(20, 600))*time.Second {
 			c.Extra["exit_race_trials_cut_short_at"] = tr + 1
 			trials = tr + 1
 			break
